@@ -23,12 +23,9 @@ ASSUMPTIONS = [
     'equal indices only come from different pads (the Model uses sorted lists)',
 ]
 OPEN_STATEMENTS = [
-    'bk_exact / bk_majorana_exact are proved under the decidable hypothesis "exact regime" (no non-zero value deleted '
+    'bk_exact / bk_majorana_exact / tree_exact are proved under the decidable hypothesis "exact regime" (no non-zero value deleted '
     'by the |v| < EQ_TOLERANCE test of +=), evaluated by the Model on every generated input (distribution key '
-    'theorem-hypothesis exact-regime); the term-level theorems bk_term_exact / bk_majorana_term_exact are unconditional',
-    'bravyi_kitaev_tree (FenwickTree variant): NO theorem (the interval-forest facts for the recursive bisection are '
-    'not proved); covered by exact correspondence of the tree sets and of every ladder image for every n <= 24/40, and '
-    'by the Spec oracles c05.sets_check (tiling / storing sets of the bisection encoding) and c05.bk_check',
+    'theorem-hypothesis exact-regime); the term-level theorems bk_term_exact / bk_majorana_term_exact / tree_term_exact are unconditional',
     'srl_sound (_seeley_richard_love(i,j,c,n) denotes c a_i^dagger a_j under the encoding, cases 0-10): NOT proved; '
     'only srl_cases_exhaustive (no pair i,j < n falls through the elif chain) is a theorem; soundness is covered by '
     'exact correspondence for ALL i,j < n <= 14/24 (case histogram in the evidence) and the Spec oracle for n <= 8',
@@ -290,7 +287,7 @@ def stream_random(ctx):
             n = size if nq is None else nq
             b.add(variant + '(FermionOperator)', case, jQ, {'op': mop, 'n': n, 'A': jA},
                   oracle(variant, 'fermion', n, ['op', jA], jQ) if n <= 9 else None,
-                  regime_req={'op': 'c05.fermion_ok', 'n': n, 'A': jA} if variant == 'bk' else None)
+                  regime_req={'op': 'c05.fermion_ok' if variant == 'bk' else 'c05.tree_ok', 'n': n, 'A': jA})
             if modes_of(jQ) > n:
                 st.violate('result acts on more than n_qubits qubits', case, {'terms': jQ})
             if variant == 'bk' and prev is not None and prev[2] == n and len(A.terms) * len(prev[0].terms) <= 9:
@@ -457,3 +454,47 @@ def stream_interaction(ctx):
 
 def run(ctx):
     return [stream_sets(ctx), stream_ladder(ctx), stream_srl(ctx), stream_random(ctx), stream_interaction(ctx)]
+
+
+# ---------------------------------------------------------------- replay of a recorded failing input
+
+def replay(ctx, payload):
+    """True: the recorded input no longer fails; False: still fails; None: not replayable"""
+    from common import gq_to_complex
+    from c04 import _op_from_json, _arr, ERRS
+    of = ctx.of
+    bk, bkt, fw = mods(ctx)
+    v = payload.get('violation')
+    if not v:
+        return None
+    case, detail = v.get('input', {}), v.get('detail', {})
+    req = detail.get('request')
+    if not req:
+        return None
+    req = dict(req)
+    try:
+        fn = case.get('fn')
+        if fn in ('bk', 'tree') and 'fermion' in case:
+            f = of.transforms.bravyi_kitaev if fn == 'bk' else of.transforms.bravyi_kitaev_tree
+            req['Q'] = enc_op('qubit', f(_op_from_json(of, 'fermion', case['fermion']), case['n_qubits']).terms)
+        elif fn == 'bk' and 'majorana' in case:
+            M = of.MajoranaOperator.from_dict({tuple(i for i, _ in t): gq_to_complex(c) for t, c in case['majorana']})
+            req['Q'] = enc_op('qubit', of.transforms.bravyi_kitaev(M, case['n_qubits']).terms)
+        elif fn == '_seeley_richard_love':
+            ops, coefs = bk._seeley_richard_love(case['i'], case['j'], gq_to_complex(case['coef']), case['n_qubits'])
+            req['Q'] = enc_op('qubit', bk._qubit_operator_creation(ops, coefs).terms)
+        elif fn == 'bravyi_kitaev' and 'interaction_operator' in case:
+            d = case['interaction_operator']
+            N = d['N']
+            iop = of.InteractionOperator(gq_to_complex(d['constant']), _arr(d['one'], (N, N)), _arr(d['two'], (N,) * 4))
+            req['Q'] = enc_op('qubit', of.transforms.bravyi_kitaev(iop, case['n_qubits']).terms)
+        elif fn == '_update_set/_occupation_set/_parity_set':
+            j, n = case['index'], case['n']
+            req.update({'update': sorted(bk._update_set(j, n)), 'occupation': sorted(bk._occupation_set(j)),
+                        'parity': sorted(bk._parity_set(j))})
+            return ctx.driver.one(req) is True
+        else:
+            return None
+    except ERRS:
+        return False
+    return bool(ctx.driver.one(req)['eq'])
